@@ -30,18 +30,10 @@ fn main() {
             eprintln!("cannot parse {path}: {e}");
             std::process::exit(2)
         });
-        let fails = match pid {
-            "C01" => total::replay_c01(&v),
-            "C02" => accept::replay_c02(&v),
-            "C03" => accept::replay_c03(&v),
-            "C05" => cprcheck::replay_c05(&v),
-            "C19" => readercheck::replay_c19(&v),
-            "C11" => render::replay_c11(&v),
-            "C20" => configs::replay_c20(&v),
-            "C12" | "C13" | "C14" | "C15" => tracker::replay(pid, &v),
-            "C04" | "C06" | "C07" | "C08" | "C09" | "C10" => decoder::replay(pid, &v),
-            _ => usage(),
-        };
+        let fails = regress::dispatch(pid, &v);
+        if !matches!(pid, "C01" | "C02" | "C03" | "C04" | "C05" | "C06" | "C07" | "C08" | "C09" | "C10" | "C11" | "C12" | "C13" | "C14" | "C15" | "C19" | "C20") {
+            usage();
+        }
         finish_replay(pid, fails, &path);
     }
     let tier = match args[2].as_str() {
@@ -50,6 +42,7 @@ fn main() {
         _ => usage(),
     };
     let mut ctx = Ctx::new(pid, tier);
+    regress::run(pid);
     match pid {
         "C01" => total::run_c01(&ctx),
         "C02" => accept::run_c02(&ctx),
